@@ -84,7 +84,11 @@ Areas(g, deg, j) ==
             coefs |-> Coefs(g, j, blk)]])
 
 (* evaluate_x: sum coef * x^i over the first area that owns x, else 0           *)
-EvalPoly(c, x) == RSumSeq(Eager([i \in 1..Len(c) |-> RMul(c[i], RPow(x, i - 1))]))
+(* (the code adds coef * pow(x, i) term by term; over the rationals Horner's rule  *)
+(* gives the same value with fewer operations)                                   *)
+RECURSIVE Horner(_, _, _)
+Horner(c, i, x) == IF i = Len(c) THEN c[i] ELSE RAdd(c[i], RMul(x, Horner(c, i + 1, x)))
+EvalPoly(c, x) == IF Len(c) = 0 THEN RZero ELSE Horner(c, 1, x)
 Owns(a, p, x) ==
   \/ IF UpperClosed THEN RLt(a.xmin, x) /\ RLe(x, a.xmax)
                     ELSE RLe(a.xmin, x) /\ RLt(x, a.xmax)
@@ -96,19 +100,23 @@ EvalXRec(areas, p, x) ==
   ELSE EvalXRec(areas, p + 1, x)
 EvalX(areas, x) == EvalXRec(areas, 1, x)
 
+(* all basis functions: A[j] = areas of basis function j (1-based)               *)
+AllAreas(g, deg) == Eager([j \in 1..Len(g) |-> Areas(g, deg, j - 1)])
+
 (* table vals[j][e] = basis j (1-based) at point pts[e]                         *)
-EvalTable(g, deg, pts) ==
-  Eager([j \in 1..Len(g) |-> LET as == Areas(g, deg, j - 1) IN
-     Eager([e \in 1..Len(pts) |-> EvalX(as, pts[e])])])
+EvalTableA(A, pts) ==
+  Eager([j \in 1..Len(A) |-> Eager([e \in 1..Len(pts) |-> EvalX(A[j], pts[e])])])
+EvalTable(g, deg, pts) == EvalTableA(AllAreas(g, deg), pts)
 
 (* get_interpolation: identity if the target grid is (np.allclose) the grid,    *)
 (* else R[t][j] = basis j at target point t.  On the exact domain points differ *)
 (* by at least 1/64, so allclose is equality.                                   *)
 Identity(n) == Eager([t \in 1..n |-> Eager([j \in 1..n |-> IF t = j THEN ROne ELSE RZero])])
-GetInterpolation(g, deg, tgt) ==
+GetInterpolationA(A, g, tgt) ==
   IF Len(tgt) = Len(g) /\ tgt = g THEN Identity(Len(g))
-  ELSE LET tab == EvalTable(g, deg, tgt)
+  ELSE LET tab == EvalTableA(A, tgt)
        IN Eager([t \in 1..Len(tgt) |-> Eager([j \in 1..Len(g) |-> tab[j][t]])])
+GetInterpolation(g, deg, tgt) == GetInterpolationA(AllAreas(g, deg), g, tgt)
 
 -----------------------------------------------------------------------------
 (* Part 2: C34 -- what a basis must be, on tables of numbers                    *)
@@ -129,12 +137,14 @@ C34_Partition(g, pts, vals) ==
 
 (* every monomial x^m, m <= deg (hence every polynomial of degree <= deg) is     *)
 (* reproduced from its node values                                              *)
-C34_ReproAt(g, m, x, col) ==
-  RSumSeq(Eager([j \in 1..Len(g) |-> RMul(RPow(g[j], m), col[j])])) = RPow(x, m)
+Powers(g, deg) == Eager([m \in 0..deg |-> Eager([j \in 1..Len(g) |-> RPow(g[j], m)])])
+C34_ReproAt(pw, n, m, x, col) ==
+  RSumSeq(Eager([j \in 1..n |-> RMul(pw[m][j], col[j])])) = RPow(x, m)
 C34_PolyReproduce(g, deg, pts, vals) ==
+  LET pw == Powers(g, deg) IN
   \A e \in 1..Len(pts) : InGrid(g, pts[e]) =>
      LET col == Eager([j \in 1..Len(g) |-> vals[j][e]]) IN
-     \A m \in 0..deg : C34_ReproAt(g, m, pts[e], col)
+     \A m \in 0..deg : C34_ReproAt(pw, Len(g), m, pts[e], col)
 
 (* the same three statements for a re-interpolation matrix R[t][j]              *)
 Columns(R, n) == Eager([j \in 1..n |-> Eager([t \in 1..Len(R) |-> R[t][j]])])
@@ -196,10 +206,11 @@ LawNames == {"Partition", "Kronecker", "PolyReproduce", "Reinterp", "ReinterpTin
 
 (* a cell is planned when some grid size of the class admits the degree; the     *)
 (* tiny-x target grid clause (targets differing from the nodes only below 1e-8)  *)
-(* needs x_min below 1e-8                                                        *)
+(* needs x_min below 1e-8 and is a statement in log x (in x the shortcut of      *)
+(* get_interpolation stays within its absolute tolerance)                        *)
 LawPlanned(c) ==
   /\ c.size[2] > c.deg
-  /\ c.law = "ReinterpTinyX" => c.xmin = <<-9, -7>>
+  /\ c.law = "ReinterpTinyX" => (c.xmin = <<-9, -7>> /\ c.mode = "log")
 LawCells ==
   {c \in [mode : LawModes, size : LawSizes, xmin : LawXmin, deg : LawDegrees, law : LawNames] :
      LawPlanned(c)}
